@@ -58,11 +58,18 @@ func c14Run(proto Protocol, variant int, preempt int) {
 	case 5: // the clock goroutine (one tick) must stop at Close
 		wg.Add(1)
 		go func() { defer wg.Done(); err1 = r.Close(); closes++ }()
+	case 6: // the destination refuses every datagram while producers keep the one-slot queue full
+		verifrt.SinkFault(addr, true)
+		wg.Add(1)
+		go func() { defer wg.Done(); c.ReportCount(1); r.Flush(); c.ReportCount(2) }()
 	}
 	wg.Wait()
 	verifrt.StopExplore()
+	if variant == 6 {
+		err1 = r.Close() // after the producer is done; must return although every send failed
+	}
 	switch variant {
-	case 0, 1, 5:
+	case 0, 1, 5, 6:
 		verifrt.Assert("c14.close-returns-nil", err1 == nil)
 	case 2:
 		verifrt.Assert("c14.exactly-one-close-succeeds", (err1 == nil) != (err2 == nil))
@@ -103,5 +110,6 @@ func VerifC14TwoClosers()     { c14Run(Compact, 2, 1) }
 func VerifC14SharedBucket()   { c14Run(Binary, 3, 2) }
 func VerifC14SharedCounter()  { c14Run(Binary, 4, 2) }
 func VerifC14ClockStops()     { c14Run(Compact, 5, 1) }
+func VerifC14SendErrors()     { c14Run(Compact, 6, 1) }
 func VerifC14ProducerClose3() { c14Run(Binary, 0, 3) }
 func VerifC14FlushClose3()    { c14Run(Binary, 1, 3) }
